@@ -227,7 +227,7 @@ func init() {
 	probeNames["C15"] = []string{"cells", "cell_freed_page", "cell_refetched_freed_page", "cell_flushed_page", "cell_dirty_page", "cell_new_empty_page", "cell_readonly_tx", "state_commit-ok", "state_commit-failed", "state_rollback", "state_closetx", "queue_cells"}
 	register(&PropDef{
 		ID: "C15", Level: "exploration", QuickSec: 50, ThoroSec: 900,
-		Rule: "each run = one seeded txops history with misuse cells injected at seeded points, followed by a queue history with queue misuse cells. Transaction matrix (exhaustive per injection point): every error-returning method of Tx (RootPage, Page, Alloc, AllocN, Flush, CheckpointWAL, Commit, Rollback, Close) and Page (Bytes, Load, SetBytes, MarkDirty, Free, Flush) x receiver state {active read-only, active writable, committed, rolled back, closed, commit failed from out-of-space} x page state {freed, flushed, dirty, new-empty, id<2, id at/beyond end marker, oversize contents}; queue matrix: Reader.Next/Read/Available without Begin, Begin twice, Reader/Writer methods and ACK after Queue.Close, ACK on empty queue, ACK(n>pending). Oracle per cell: executed under recover, must return a non-nil error of the documented kind (TxFinished, TxReadOnly, InvalidOp, InvalidPageID, InvalidParam, InactiveTx, UnexpectedActiveTx, ReaderClosed, WriterClosed, QueueClosed, ACKEmptyQueue, ACKTooMany; Tx.Close on a finished transaction returns nil), must not panic or block (scheduler deadlock detection), and afterwards the interrupted history continues with the full model oracle (committed state, running transaction's own reads, partition, idle locks). Non-trivial = run in which cells ran against at least three different receiver states; distinct = op list + injection points + config.",
+		Rule: "each run = one seeded txops history with misuse cells injected at seeded points, followed by a queue history with queue misuse cells. Transaction matrix (exhaustive per injection point): every error-returning method of Tx (RootPage, Page, Alloc, AllocN, Flush, CheckpointWAL, Commit, Rollback, Close) and Page (Bytes, Load, SetBytes, MarkDirty, Free, Flush) x receiver state {active read-only, active writable, committed, rolled back, closed, commit failed from out-of-space} x page state {freed (also through a handle fetched again with Tx.Page after the free), flushed, dirty, new-empty, id<2, id at/beyond end marker, oversize contents}; queue matrix: Reader.Next/Read/Available without Begin, Begin twice, Reader/Writer methods and ACK after Queue.Close, ACK on empty queue, ACK(n>pending). Oracle per cell: executed under recover, must return a non-nil error of the documented kind (TxFinished, TxReadOnly, InvalidOp, InvalidPageID, InvalidParam, InactiveTx, UnexpectedActiveTx, ReaderClosed, WriterClosed, QueueClosed, ACKEmptyQueue, ACKTooMany; Tx.Close on a finished transaction returns nil), must not panic or block (scheduler deadlock detection), and afterwards the interrupted history continues with the full model oracle (committed state, running transaction's own reads, partition, idle locks). Non-trivial = run in which cells ran against at least three different receiver states; distinct = op list + injection points + config.",
 		Real: defaultReal, Stub: defaultStub, Assume: defaultAssume,
 		Body: c15Body,
 	})
